@@ -220,7 +220,43 @@ func describeCallee(c ssa.CallInstruction) string {
 	return "dynamic callee"
 }
 
+// pruneDead removes call sites that sit in functions of internal packages which nothing in the module calls
+// (dead code such as Linked.Clear): they are not callers in any build of the library.
+func (lc *lockCtx) pruneDead() {
+	for round := 0; round < 10; round++ {
+		dead := map[*ssa.Function]bool{}
+		for _, fn := range lc.funcs {
+			o := origin(outermost(fn))
+			if o.Pkg == nil || !strings.Contains(o.Pkg.Pkg.Path(), "/internal/") {
+				continue
+			}
+			if _, esc := lc.escape[o]; esc {
+				continue
+			}
+			if len(lc.sites[o]) == 0 {
+				dead[o] = true
+			}
+		}
+		changed := false
+		for callee, sites := range lc.sites {
+			var keep []ssa.Instruction
+			for _, s := range sites {
+				if dead[origin(outermost(s.Parent()))] {
+					changed = true
+					continue
+				}
+				keep = append(keep, s)
+			}
+			lc.sites[callee] = keep
+		}
+		if !changed {
+			break
+		}
+	}
+}
+
 func (lc *lockCtx) solve() {
+	lc.pruneDead()
 	for _, fn := range lc.funcs {
 		o := origin(fn)
 		_, esc := lc.escape[o]
@@ -238,7 +274,7 @@ func (lc *lockCtx) solve() {
 				continue
 			}
 			for _, s := range lc.sites[o] {
-				if !lc.heldAt(s) {
+				if !lc.heldAtCtx(s) {
 					lc.entry[o] = false
 					changed = true
 					break
@@ -320,6 +356,9 @@ func (lc *lockCtx) flow(fn *ssa.Function) {
 }
 
 func (lc *lockCtx) heldAt(in ssa.Instruction) bool {
+	if outermost(in.Parent()).Name() == "newCache" {
+		return true // named exception: the cache object is not yet published while it is being constructed
+	}
 	b := in.Block()
 	held := lc.blkIn[b]
 	for _, x := range b.Instrs {
@@ -329,6 +368,55 @@ func (lc *lockCtx) heldAt(in ssa.Instruction) bool {
 		held = lc.step(x, held)
 	}
 	return held
+}
+
+// heldAtCtx refines heldAt with one level of parameter correlation: a site guarded by a boolean parameter p == T
+// (alreadyLocked) holds the lock if every caller that passes the constant T does.
+func (lc *lockCtx) heldAtCtx(in ssa.Instruction) bool {
+	if lc.heldAt(in) {
+		return true
+	}
+	fn := in.Parent()
+	for _, g := range guardsAt(in.Block()) {
+		p, ok := g.Cond.(*ssa.Parameter)
+		if !ok {
+			continue
+		}
+		idx := -1
+		for i, q := range fn.Params {
+			if q == p {
+				idx = i
+			}
+		}
+		if idx < 0 {
+			continue
+		}
+		sites := lc.sites[origin(fn)]
+		if len(sites) == 0 {
+			continue
+		}
+		all := true
+		for _, s := range sites {
+			cc := callCommon(s)
+			if cc == nil || idx >= len(cc.Args) {
+				all = false
+				break
+			}
+			b, isConst := constBool(cc.Args[idx])
+			if !isConst {
+				all = false
+				break
+			}
+			if b == g.Truth && !lc.heldAtCtx(s) {
+				all = false
+				break
+			}
+		}
+		if all {
+			return true
+		}
+	}
+	return false
 }
 
 func (lc *lockCtx) heldAtEntry(fn *ssa.Function) bool { return lc.entry[origin(fn)] }
